@@ -96,7 +96,7 @@ func ProfileConcurrency(avoid map[string]string) *Profile {
 // ProfileMock: plain schemas with examples, used with generate_mock=true.
 func ProfileMock(avoid map[string]string) *Profile {
 	return &Profile{Name: "mock", MaxDataMessages: 2, MaxFields: 4, Maps: true, Optionals: true, Repeateds: true, Enums: true, MessageFields: true, Timestamps: true,
-		MaxServices: 2, MaxMethods: 2, Transport: true, BasePaths: true, Headers: true, Examples: true, NoClient: true, Avoid: avoid}
+		MaxServices: 2, MaxMethods: 2, Transport: true, BasePaths: true, Headers: true, Examples: true, NoClient: true, MockShape: true, Avoid: avoid}
 }
 
 // ProfileOpenAPI: everything that shapes OpenAPI documents.
